@@ -59,7 +59,7 @@ var Commands = []Command{
 	{0x03, "LinkADRReq", false, 4, []Field{f8("DataRate", 0, 4, 4), f8("TXPower", 0, 0, 4),
 		{Name: "ChMask", Off: 1, Len: 2, Shift: 0, Width: 16, Scale: 1},
 		f8("Redundancy.ChMaskCntl", 3, 4, 3), f8("Redundancy.NbRep", 3, 0, 4)}, nil},
-	{0x04, "DutyCycleReq", false, 1, []Field{{Name: "MaxDCycle", Off: 0, Len: 1, Width: 8, Scale: 1, MustAccept: func(r int64) bool { return r <= 15 }}},
+	{0x04, "DutyCycleReq", false, 1, []Field{{Name: "MaxDCycle", Off: 0, Len: 1, Width: 8, Scale: 1, MustAccept: func(r int64) bool { return r <= 15 || r == 255 }}}, // 255: "become silent" in LoRaWAN 1.0.0 - 1.0.2
 		func(b []byte) bool { return b[0] <= 15 || b[0] == 255 }},
 	{0x05, "RXParamSetupReq", false, 4, []Field{f8("DLSettings.RX1DROffset", 0, 4, 3), f8("DLSettings.RX2DataRate", 0, 0, 4), freq("Frequency", 1)}, nil},
 	{0x07, "NewChannelReq", false, 5, []Field{f8("ChIndex", 0, 0, 8), freq("Freq", 1), f8("MaxDR", 4, 4, 4), f8("MinDR", 4, 0, 4)},
